@@ -85,9 +85,24 @@ def expected_lines(w, members, rfunc, sort):
     return lines
 
 
+def _fail():
+    raise RuntimeError("rfunc fails")
+
+
 def judge(w, members, rn, sn):
     uni = Universe(vertices=[w.v[i] for i in members])
     rfunc, sort = RFUNCS[rn], SORTS[sn]
+    if members:
+        # renderings that are rejected come first: an rfunc that fails at the last member (after labels and
+        # keys of the others have been computed), and sort keys that cannot be compared -- a failed
+        # rendering must not spoil the valid one that follows
+        last = w.v[members[-1]]
+        for kw in (dict(rfunc=lambda v, _l=last: _fail() if v is _l else "stale-" + str(v.i)),
+                   dict(rfunc=lambda v: "old-" + str(v.i), sort=lambda v: (v.i if v.i % 2 else str(v.i)))):
+            try:
+                plaintext.basic_render(uni, **kw)
+            except Exception:  # noqa: BLE001
+                pass
     try:
         out = plaintext.basic_render(uni, rfunc=rfunc, sort=sort)
     except Exception as e:  # noqa: BLE001
